@@ -59,7 +59,9 @@ CTxOut::CTxOut(const CAmount& nValueIn, CScript scriptPubKeyIn)
 
 std::string CTxOut::ToString() const
 {
-    return strprintf("CTxOut(nValue=%d.%08d, scriptPubKey=%s)", nValue / COIN, nValue % COIN, HexStr(scriptPubKey).substr(0, 30));
+    // (sign in front, then the magnitude: -1 satoshi printed as "0.-0000001"; the magnitude of INT64_MIN does not fit a signed 64 bit number)
+    const uint64_t mag = nValue < 0 ? uint64_t(0) - uint64_t(nValue) : uint64_t(nValue);
+    return strprintf("CTxOut(nValue=%s%d.%08d, scriptPubKey=%s)", nValue < 0 ? "-" : "", mag / uint64_t(COIN), mag % uint64_t(COIN), HexStr(scriptPubKey).substr(0, 30));
 }
 
 CMutableTransaction::CMutableTransaction() : nVersion(CTransaction::CURRENT_VERSION), nLockTime(0) {}
